@@ -552,7 +552,10 @@ func TestC14Concurrent(t *testing.T) {
 			if strings.HasPrefix(ws[i].Desc, "create") && o.Err == nil && o.Tx.Reference != "" {
 				byRef[o.Tx.Reference]++
 			}
-			if o.Err != nil && o.Kind != ErrReferenceConflict && o.Kind != ErrInsufficientFunds {
+			if o.Kind == ErrAccountRace {
+				w.St.Class("account-first-use-race")
+			}
+			if o.Err != nil && o.Kind != ErrReferenceConflict && o.Kind != ErrInsufficientFunds && o.Kind != ErrAccountRace {
 				w.V("C14", "unexpected error %q (%v)\n%s\nschedule:\n  %s", o.Kind, o.Err, describeOuts(ws, outs), strings.Join(s.Trace, "\n  "))
 			}
 		}
